@@ -364,6 +364,105 @@ enum Ty {
 }
 
 // ---------------------------------------------------------------------------------------------------------------------
+// Preceding siblings: well-typed statements placed before the hole (same block or an enclosing block) that make the
+// checker enter/leave contexts or swap per-function state. Twins get the same siblings.
+// ---------------------------------------------------------------------------------------------------------------------
+
+#[derive(Clone, Copy, Debug, PartialEq, Eq, Hash, PartialOrd, Ord)]
+enum Sib {
+    ClosureDef,
+    ClosureCall,
+    ListComp,
+    DictComp,
+    MatchBindings,
+    IfElifLet,
+    ForBlock,
+    WhileBlock,
+    TryUse,
+    ResultMatch,
+    LetShadow,
+    MutMethod,
+}
+const SIBS: [Sib; 12] = [
+    Sib::ClosureDef,
+    Sib::ClosureCall,
+    Sib::ListComp,
+    Sib::DictComp,
+    Sib::MatchBindings,
+    Sib::IfElifLet,
+    Sib::ForBlock,
+    Sib::WhileBlock,
+    Sib::TryUse,
+    Sib::ResultMatch,
+    Sib::LetShadow,
+    Sib::MutMethod,
+];
+impl Sib {
+    fn name(self) -> &'static str {
+        match self {
+            Sib::ClosureDef => "closure-def",
+            Sib::ClosureCall => "closure-def+call",
+            Sib::ListComp => "list-comprehension",
+            Sib::DictComp => "dict-comprehension",
+            Sib::MatchBindings => "match-with-bindings",
+            Sib::IfElifLet => "if-elif-else-with-let",
+            Sib::ForBlock => "for-block",
+            Sib::WhileBlock => "while-block",
+            Sib::TryUse => "try-use",
+            Sib::ResultMatch => "result-call-matched",
+            Sib::LetShadow => "inner-let-shadowing",
+            Sib::MutMethod => "mut-binding+mut-method",
+        }
+    }
+    fn from_name(s: &str) -> Option<Sib> {
+        SIBS.iter().copied().find(|r| r.name() == s)
+    }
+    /// lines (extra indent, text); `k` makes the names unique; `?` is only legal in a Result-returning function
+    fn lines(self, k: usize, ret: Ret, use_elif: bool) -> Vec<(usize, String)> {
+        let l = |i: usize, t: String| (i, t);
+        match self {
+            Sib::ClosureDef => vec![l(0, format!("sf{k} = (a{k}) => a{k} + n"))],
+            Sib::ClosureCall => vec![l(0, format!("sf{k} = (a{k}) => a{k} + 1")), l(0, format!("sg{k} = sf{k}(2)"))],
+            Sib::ListComp => vec![l(0, format!("sl{k} = [j{k} * 2 for j{k} in xs if j{k} > 0]"))],
+            Sib::DictComp => vec![l(0, format!("sd{k} = {{j{k}: j{k} + 1 for j{k} in xs}}"))],
+            Sib::MatchBindings => vec![
+                l(0, "match opt:".to_string()),
+                l(1, format!("case Some(sq{k}):")),
+                l(2, format!("sm{k} = sq{k} + 1")),
+                l(1, "case None:".to_string()),
+                l(2, "pass".to_string()),
+            ],
+            Sib::IfElifLet => {
+                let mut v = vec![l(0, "if n > 9:".to_string()), l(1, format!("let sv{k} = n"))];
+                if use_elif {
+                    v.push(l(0, "elif n > 8:".to_string()));
+                    v.push(l(1, format!("let sv{k} = n + 1")));
+                }
+                v.push(l(0, "else:".to_string()));
+                v.push(l(1, format!("let sv{k} = 0")));
+                v
+            }
+            Sib::ForBlock => vec![l(0, format!("for sj{k} in xs:")), l(1, format!("st{k} = sj{k} + n"))],
+            Sib::WhileBlock => vec![l(0, "while n > 5:".to_string()), l(1, format!("sw{k} = n")), l(1, "break".to_string())],
+            Sib::TryUse if ret == Ret::Result => vec![l(0, format!("sr{k} = fallible(n)?"))],
+            Sib::TryUse | Sib::ResultMatch => vec![
+                l(0, "match fallible(n):".to_string()),
+                l(1, format!("case Ok(so{k}): pass")),
+                l(1, format!("case Err(se{k}): pass")),
+            ],
+            Sib::LetShadow => vec![
+                l(0, format!("let sx{k} = n")),
+                l(0, "if n > 0:".to_string()),
+                l(1, format!("let sx{k} = \"s\"")),
+                l(1, format!("sy{k} = sx{k} + \"t\"")),
+                l(0, format!("sz{k} = sx{k} + 1")),
+            ],
+            Sib::MutMethod => vec![l(0, format!("mut sc{k} = Counter(count=1, label=\"a\")")), l(0, format!("sb{k} = sc{k}.bump(1)"))],
+        }
+    }
+}
+
+// ---------------------------------------------------------------------------------------------------------------------
 // Case
 // ---------------------------------------------------------------------------------------------------------------------
 
@@ -375,6 +474,8 @@ struct Case {
     /// requested distance (in scopes) between the rule's binding declaration and the hole; clamped by `eff_decl_up`
     decl_up: u8,
     v: [u8; 4],
+    /// preceding siblings: (kind, how many blocks above the hole's statement; clamped)
+    sib: Vec<(Sib, u8)>,
 }
 
 impl Case {
@@ -402,7 +503,8 @@ impl Case {
         self.path.iter().map(|n| n.name()).collect()
     }
     fn to_json(&self) -> Value {
-        json!({"rule": self.rule.name(), "root": self.root.name(), "path": self.path_names(), "decl_up": self.decl_up, "v": self.v})
+        let sib: Vec<Value> = self.sib.iter().map(|(k, up)| json!([k.name(), up])).collect();
+        json!({"rule": self.rule.name(), "root": self.root.name(), "path": self.path_names(), "decl_up": self.decl_up, "v": self.v, "sib": sib})
     }
     fn from_json(v: &Value) -> Option<Case> {
         let rule = Rule::from_name(v["rule"].as_str()?)?;
@@ -416,14 +518,20 @@ impl Case {
         for (i, x) in v["v"].as_array()?.iter().enumerate().take(4) {
             vv[i] = x.as_u64()? as u8;
         }
-        Some(Case { rule, root, path, decl_up, v: vv })
+        let mut sib = Vec::new();
+        if let Some(a) = v["sib"].as_array() {
+            for x in a {
+                sib.push((Sib::from_name(x[0].as_str()?)?, x[1].as_u64()? as u8));
+            }
+        }
+        Some(Case { rule, root, path, decl_up, v: vv, sib })
     }
     fn nontrivial(&self) -> bool {
         if self.rule.kind() == Kind::Decl {
             // adopter lists two traits (the required one is not alone in the `with` clause)
             self.v[1] % 3 != 0
         } else {
-            self.depth() >= 1 || self.root.is_method()
+            self.depth() >= 1 || self.root.is_method() || !self.sib.is_empty()
         }
     }
 
@@ -579,6 +687,12 @@ def helper(n: int) -> int:
 
 def norm_of(p: Point) -> int:
     return p.x + p.y
+
+
+def fallible(n: int) -> Result[int, str]:
+    if n > 0:
+        return Ok(n)
+    return Err("neg")
 
 
 "#;
@@ -915,6 +1029,7 @@ struct Rend<'a> {
     out: String,
     construct: Option<(usize, usize)>,
     decl_scope: usize,
+    use_elif_in_siblings: bool,
 }
 
 impl<'a> Rend<'a> {
@@ -1058,6 +1173,14 @@ impl<'a> Rend<'a> {
                 self.line(level, d);
             }
         }
+        let stmt_scope = self.c.stmt_scope();
+        for (k, (kind, up)) in self.c.sib.clone().into_iter().enumerate() {
+            if stmt_scope - (up as usize).min(stmt_scope) == scope {
+                for (extra, t) in kind.lines(k, self.c.rule.ret(), self.use_elif_in_siblings) {
+                    self.line(level + extra, &t);
+                }
+            }
+        }
         let noise = self.c.v[1].wrapping_add((idx as u8).wrapping_mul(3));
         if noise % 4 == 1 {
             self.line(level, &format!("t{idx} = n + {idx}"));
@@ -1175,7 +1298,7 @@ fn render(c: &Case, violate: bool) -> Rendered {
     }
     let f = fill(c, violate);
     let decl_scope = c.stmt_scope() - c.eff_decl_up();
-    let mut r = Rend { c, f, out: String::with_capacity(2048), construct: None, decl_scope };
+    let mut r = Rend { c, f, out: String::with_capacity(2048), construct: None, decl_scope, use_elif_in_siblings: c.v[0] % 2 == 0 };
     r.out.push_str(PRELUDE);
     let ret = match c.rule.ret() {
         Ret::Int => "int",
@@ -1347,12 +1470,31 @@ fn judge(c: &Case) -> Judged {
 /// 3. a simple probe rule also fails in the same innermost context -> the context is not visited: `context-unchecked:<ctx>`;
 /// 4. otherwise `<leg>:<rule>:<ctx>`.
 fn fail_key(c: &Case, leg: &str) -> String {
+    if !c.sib.is_empty() {
+        let same_leg = |c2: &Case| matches!(judge(c2).verdict, Verdict::Fail { leg: l2, .. } if l2 == leg);
+        let mut bare = c.clone();
+        bare.sib.clear();
+        if same_leg(&bare) {
+            // the siblings are irrelevant
+            return fail_key(&bare, leg);
+        }
+        // checker state leaks from an earlier sibling construct: name the first sibling that is enough on its own
+        for (kind, up) in &c.sib {
+            let mut one = bare.clone();
+            one.sib = vec![(*kind, *up)];
+            if same_leg(&one) {
+                return format!("{leg}-after-sibling:{}:{}", kind.name(), c.rule.name());
+            }
+        }
+        let kinds: Vec<&str> = c.sib.iter().map(|(k, _)| k.name()).collect();
+        return format!("{leg}-after-siblings:{}:{}", kinds.join("+"), c.rule.name());
+    }
     if leg == "accepted" {
         // a construct key names the cause only if a probe confirms it: a rule-level cause must also show in a plain body,
         // a context-level cause (`elif`, outer-scope assignment) must disappear without the context
         let accepted = |c2: &Case| matches!(judge(c2).verdict, Verdict::Fail { leg: "accepted", .. });
         let root = if c.rule.root_ok(Root::Func) { Root::Func } else { Root::ModelMethod };
-        let plain = Case { rule: c.rule, root, path: vec![], decl_up: 0, v: c.v };
+        let plain = Case { rule: c.rule, root, path: vec![], decl_up: 0, v: c.v, sib: vec![] };
         let is_plain = c.path.is_empty() && c.root == root;
         for k in c.construct_keys() {
             let confirmed = if k == KEY_ELIF {
@@ -1372,7 +1514,7 @@ fn fail_key(c: &Case, leg: &str) -> String {
     let fails_same_leg = |c2: &Case| matches!(judge(c2).verdict, Verdict::Fail { leg: l2, .. } if l2 == leg);
     if c.rule.kind() != Kind::Decl && (c.depth() > 0 || c.root != Root::Func) {
         let root = if c.rule.root_ok(Root::Func) { Root::Func } else { Root::ModelMethod };
-        let plain = Case { rule: c.rule, root, path: vec![], decl_up: 0, v: c.v };
+        let plain = Case { rule: c.rule, root, path: vec![], decl_up: 0, v: c.v, sib: vec![] };
         if (plain.root != c.root || c.depth() > 0) && fails_same_leg(&plain) {
             return format!("{leg}:{}", c.rule.name());
         }
@@ -1394,7 +1536,7 @@ fn fail_key(c: &Case, leg: &str) -> String {
                     .collect();
                 let any_probe = !probes.is_empty();
                 let swallowed =
-                    probes.iter().all(|r| fails_same_leg(&Case { rule: *r, root, path: path.clone(), decl_up: 0, v: [0, 0, 0, 0] }));
+                    probes.iter().all(|r| fails_same_leg(&Case { rule: *r, root, path: path.clone(), decl_up: 0, v: [0, 0, 0, 0], sib: vec![] }));
                 if any_probe && swallowed {
                     return format!("context-unchecked:{name}");
                 }
@@ -1410,7 +1552,7 @@ fn fail_key(c: &Case, leg: &str) -> String {
 }
 
 fn case_id(c: &Case, twin: &str) -> u64 {
-    util::hash_str(&format!("{}|{}|{:?}|{}|{:016x}", c.rule.name(), c.root.name(), c.path_names(), c.eff_decl_up(), util::hash_str(twin)))
+    util::hash_str(&format!("{}|{}|{:?}|{}|{:?}|{:016x}", c.rule.name(), c.root.name(), c.path_names(), c.eff_decl_up(), c.sib, util::hash_str(twin)))
 }
 
 fn replay_body(c: Option<&Case>, j: &Judged, key: &str, what: &str) -> String {
@@ -1528,6 +1670,10 @@ impl Run {
         for n in &c.path {
             self.ev.class(&format!("nest:{}", n.name()));
         }
+        self.ev.class(&format!("siblings:{}", c.sib.len()));
+        for (k, _) in &c.sib {
+            self.ev.class(&format!("sibling:{}", k.name()));
+        }
         if c.rule.has_decl() {
             self.ev.class(&format!("decl-scopes-up:{}", c.eff_decl_up()));
         }
@@ -1590,7 +1736,15 @@ impl Run {
 }
 
 fn case_strategy(min_depth: usize, max_depth: usize) -> BoxedStrategy<RawCase> {
-    (any::<u16>(), 0u8..5, proptest::collection::vec(any::<u8>(), min_depth..=max_depth), 0u8..4, any::<[u8; 4]>()).boxed()
+    (
+        any::<u16>(),
+        0u8..5,
+        proptest::collection::vec(any::<u8>(), min_depth..=max_depth),
+        0u8..4,
+        any::<[u8; 4]>(),
+        proptest::collection::vec((0u8..SIBS.len() as u8, 0u8..4), 0..=3),
+    )
+        .boxed()
 }
 
 /// Build a valid case from raw generator output (construction, not rejection).
@@ -1612,7 +1766,10 @@ fn build_case(raw: &RawCase, sw: Switches) -> Case {
     }
     let path = build_path(rule, &raw.2, sw.avoid_elif);
     let decl_up = if sw.same_scope_assign && matches!(rule, Rule::Reassign | Rule::AssignReassign) { 0 } else { raw.3 };
-    Case { rule, root, path, decl_up, v: raw.4 }
+    let avoid = sw.avoid_elif;
+    let _ = avoid;
+    let sib: Vec<(Sib, u8)> = raw.5.iter().map(|(k, up)| (SIBS[(*k as usize) % SIBS.len()], *up)).collect();
+    Case { rule, root, path, decl_up, v: raw.4, sib }
 }
 
 const MATCH_SHAPES: u8 = 24;
@@ -1730,7 +1887,7 @@ fn main() {
             for a in 0..2u8 {
                 for p in 0..3u8 {
                     for d in 0..2u8 {
-                        cases.push(Case { rule, root: Root::Func, path: vec![], decl_up: 0, v: [a, p, d, 0] });
+                        cases.push(Case { rule, root: Root::Func, path: vec![], decl_up: 0, v: [a, p, d, 0], sib: vec![] });
                     }
                 }
             }
@@ -1756,18 +1913,42 @@ fn main() {
                         continue;
                     }
                     for v in VARIANTS {
-                        cases.push(Case { rule, root, path: path.clone(), decl_up: du, v });
+                        cases.push(Case { rule, root, path: path.clone(), decl_up: du, v, sib: vec![] });
                     }
                     if rule.kind() == Kind::Match {
                         // the shape of the remaining arms is derived from the variant bytes: sweep more of them
                         for i in 0..MATCH_SHAPES {
-                            cases.push(Case { rule, root, path: path.clone(), decl_up: du, v: [i, i.wrapping_mul(7).wrapping_add(1), i.wrapping_mul(3).wrapping_add(2), i.wrapping_mul(5).wrapping_add(4)] });
+                            cases.push(Case { rule, root, path: path.clone(), decl_up: du, v: [i, i.wrapping_mul(7).wrapping_add(1), i.wrapping_mul(3).wrapping_add(2), i.wrapping_mul(5).wrapping_add(4)], sib: vec![] });
                         }
                     }
                 }
             }
         }
     }
+    // preceding-sibling sweep: every rule x every sibling kind, sibling in the same block (plain body and inside an `if`)
+    // and in the enclosing block
+    let mut sib_cases = 0u64;
+    for rule in RULES {
+        if rule.kind() == Kind::Decl {
+            continue;
+        }
+        let roots: Vec<Root> = if args.tier == vcore::Tier::Quick {
+            vec![if rule.root_ok(Root::Func) { Root::Func } else { Root::ModelMethod }]
+        } else {
+            ROOTS.iter().copied().filter(|r| rule.root_ok(*r)).collect()
+        };
+        for root in roots {
+            for kind in SIBS {
+                for (path, up) in [(vec![], 0u8), (vec![Nest::If], 0), (vec![Nest::If], 1), (vec![Nest::For], 1)] {
+                    for v in [VARIANTS[0], VARIANTS[3]] {
+                        cases.push(Case { rule, root, path: path.clone(), decl_up: 0, v, sib: vec![(kind, up)] });
+                        sib_cases += 1;
+                    }
+                }
+            }
+        }
+    }
+    run.ev.set("exhaustive_sibling_cases", json!(sib_cases));
     run.ev.set("exhaustive_cells_inapplicable", json!(inapplicable));
     run.ev.set("exhaustive_depth", json!(sweep_depth));
     // `--legs random` (debugging aid): skip the exhaustive sweep so that failures are found and shrunk in the random leg
@@ -1916,4 +2097,4 @@ fn process(run: &mut Run, cases: Vec<Case>, mut trees: Option<Vec<Box<dyn ValueT
     }
 }
 
-type RawCase = (u16, u8, Vec<u8>, u8, [u8; 4]);
+type RawCase = (u16, u8, Vec<u8>, u8, [u8; 4], Vec<(u8, u8)>);
